@@ -713,7 +713,7 @@ func run(c *engine.Ctx) {
 					fills := []byte{'?', '~', 'U'}
 					if n > 300 { // megabyte strings: the edgeless fill, and one dense fill behind the canonical header
 						fills = []byte{'?'}
-						if len(h) == len(codec.SizeHeader(n)) {
+						if len(h) == len(codec.SizeHeader(n)) && (n == 1000 || n == MaxN) {
 							fills = []byte{'?', 'U'}
 						}
 					}
